@@ -243,7 +243,7 @@ CLAIMS = {
     "C26": ("model_checking",
             "PluginWire.tla: (i) message universes (all values of U, all types of TU, schemas with every time-field position, records, watermarks, variable contexts to depth 3) "
             "with Decode(Encode(x)) = x, exported by TLC and sent through the real protobuf encoding/decoding (export shim, build tag verif); (ii) every function overload on the "
-            "C12/C13 catalogues crosses the real predicate transport (JSON + RepopulatePhysicalExpressionFunctions) and must evaluate as before; (iii) the Run stream state machine "
+            "C12/C13 catalogues crosses the real predicate transport (JSON + RepopulatePhysicalExpressionFunctions) and must evaluate as before; (iii) the Run stream state machine (PluginStream.tla) "
             "(FIFO, server failure, early stop) is model-checked (prefix, end, termination) and scripts of records / retractions / watermarks / failure are served by a test plugin "
             "(separate process on the real plugins.Run, reached through executor.PluginExecutor over gRPC) and compared with what the client callbacks receive; (iv) TLC-generated "
             "queries of Relational.tla run through the binary against the plugin with pushdown accepted / rejected, plus queries with subquery predicates compared with the native run. "
